@@ -12,15 +12,27 @@ TRUSTED_BASE = [
     "arcovar_marple / modcovar_marple: modelled twice - at specification level (the least-squares solution and the minimum per "
     "sample) and as a step-by-step transliteration of the recursions (Model/Marple.lean); the correspondence compares the Python "
     "routines with both, and the two models with each other in exact rational arithmetic (kind recexact)",
-    "exact mode: dyadic data, N <= 24, order <= 6; rtol 1e-6 (Marple recursions: 1e-5)",
+    "exact mode: dyadic data, N <= 24, order <= 6; rtol 1e-6 (Marple recursions: 1e-5); boundary kinds (N = 2p) compare the error "
+    "normalised by the signal energy (the covariance minimum is exactly 0 there)",
+    "oracle references written in numpy inside this file: the data matrix (_dmat), numpy.linalg.lstsq for the backward and the "
+    "lower-order modified-covariance minima, numpy.linalg.cond for the conditioning predicate (no library routine is used to "
+    "select or to judge a case)",
 ]
 PARTIAL = ["equality of Marple's fast recursions with the least-squares solution for EVERY input is not proved in Lean (the derivation is a "
            "chapter of Marple's book): proved are the order-0 case, lengths and domain of the transliteration and kernel-checked exact "
-           "instances; the general statement is tested with exact rational equality between the two models on every run"]
-ASSUMPTIONS = ["N - p >= p (N - p > p for the Marple recursions, whose exact-fit case divides by zero); data matrix of full "
-               "column rank (random data); conditioning predicate cond(XcH Xc) <= 1e8"]
-RULE = ("real/complex data of length 6..128 (noise, exponentials in noise, noiseless exponentials, integer data) x orders "
-        "1..min(N/2, 20); exact-mode model cases N <= 24, order <= 6; non-trivial = order >= 2")
+           "instances; the general statement is tested with exact rational equality between the two models on every run "
+           "(including the boundary N = 2p)"]
+ASSUMPTIONS = ["N - p >= p for all four functions (the boundary N = 2p included for the Marple recursions); data matrix of full "
+               "column rank (random data); conditioning predicate cond(XcH Xc) <= 1e8 evaluated on a data matrix built with numpy "
+               "(kind sanity fails the run when fewer than 60% of the generated candidates satisfy it); inside that domain a "
+               "ValueError of modcovar_marple is a violation; backward outputs of arcovar_marple: the same predicate on the "
+               "backward regressor matrix; at N = 2p the zero minimum is compared with max(1e-9, 1e-13 cond) x energy; "
+               "exact recovery: frequencies on a grid of spacing 1/40, the same conditioning predicate on the noiseless data matrix"]
+RULE = ("real/complex data of length 6..128 (noise, exponentials in noise, noiseless exponentials, integer data, wide dynamic range, "
+        "complex dtype with zero imaginary part; handed over as float64/complex128 arrays, int64/int32 arrays, lists of floats, "
+        "complex numbers or Python ints) x orders 1..min(N/2, 20), N = 2p included for all four functions; order 0 of the Marple "
+        "routines (trivial); exact-mode model cases N <= 24, order <= 6; exact recovery: p = 1..8 complex exponentials with "
+        "N = 2p, 2p+1, ..40, K real sinusoids at order 2K, tones exactly at 0 and 0.5; non-trivial = order >= 2")
 
 
 def _sp():
@@ -37,12 +49,83 @@ def _fn(name):
     return {"arcovar": sp.arcovar, "modcovar": sp.modcovar, "arcovarm": sp.arcovar_marple, "modcovarm": sp.modcovar_marple}[name]
 
 
-def impl_fit(p):
+def _present(p):
+    """what is handed to the real API: p["x"] is always a float64/complex128 array (so that the runner's amplitude / strided /
+    degenerate variants apply); p["inp"] names the class it is presented as.  Integer classes apply only while the samples
+    are integers (an amplitude variant 2^-30 of integer data is presented as the float array)."""
     x = np.asarray(p["x"])
-    r = _fn(p["fn"])(x, p["order"])
+    inp = p.get("inp", "array")
+    if inp == "list":
+        return [complex(v) if np.iscomplexobj(x) else float(v) for v in x]
+    if inp in ("int64", "int32", "pyint") and not np.iscomplexobj(x) and np.all(x == np.round(x)) and np.max(np.abs(x)) < 2 ** 31:
+        if inp == "pyint":
+            return [int(v) for v in x]
+        return x.astype(np.int64 if inp == "int64" else np.int32)
+    return x
+
+
+def _inp_tag(p):
+    xin = _present(p)
+    if isinstance(xin, list):
+        return "inp:list-" + type(xin[0]).__name__
+    return "inp:" + str(xin.dtype)
+
+
+def _dmat(x, order):
+    """data matrix written independently of the library: row t (t = order..N-1) is [x[t], x[t-1], .., x[t-order]]"""
+    x = np.asarray(x).astype(complex)
+    idx = np.arange(order, len(x))[:, None] - np.arange(order + 1)[None, :]
+    return x[idx]
+
+
+def _cond(x, order, backward=False):
+    """cond(XcH Xc) of the covariance regressor matrix (the conditioning predicate of the domain); backward=True: of the
+    regressor matrix of the backward predictor, [x[t], .., x[t-order+1]]"""
+    X = _dmat(x, order)
+    X = X[:, :order] if backward else X[:, 1:]
+    if X.shape[1] == 0:
+        return 1.0
+    with np.errstate(all="ignore"):
+        v = np.linalg.cond(X.conj().T @ X)
+    return float(v) if np.isfinite(v) else float("inf")
+
+
+def _cond_ok(x, order):
+    return _cond(x, order) <= 1e8
+
+
+def _ls(M, y):
+    """numpy least squares: minimiser of |y + M b|^2 and the minimum"""
+    b = np.linalg.lstsq(-M, y, rcond=None)[0]
+    return b, float(np.sum(np.abs(y + M @ b) ** 2))
+
+
+def _ls_backward(x, order):
+    """backward predictor: minimise sum_{t=p}^{N-1} |x[t-p] + sum_j b_j x[t-p+j+1]|^2"""
+    X = _dmat(x, order)
+    return _ls(X[:, order - 1::-1] if order else X[:, :0], X[:, order])
+
+
+def _ls_modified_min(x, order):
+    """minimum of the forward + backward energy at the given order"""
+    X = _dmat(x, order)
+    M = np.vstack([X[:, 1:], np.conj(X[:, order - 1::-1])])
+    y = np.concatenate([X[:, 0], np.conj(X[:, order])])
+    return _ls(M, y)[1]
+
+
+def impl_fit(p):
+    r = _fn(p["fn"])(_present(p), p["order"])
     if p["fn"] in ("arcovar", "modcovar"):
         return [c(r[0]), c([r[1]])]
     return [c(r[0])[: p["order"]], c([r[1]])]
+
+
+def _post_energy(p, iv, mv):
+    """boundary N = 2p: the covariance minimum is exactly 0, so the error is compared relative to the signal energy
+    (atol of the kind), whatever the amplitude of the record"""
+    en = float(np.sum(np.abs(np.asarray(p["x"])) ** 2))
+    return [iv[0], np.asarray(iv[1]) / en], [mv[0], np.asarray(mv[1]) / en]
 
 
 def model_fit(p):
@@ -82,15 +165,28 @@ def _resid(x, a, p):
     return ef, eb
 
 
+def _coef_rel(u, v):
+    """relative difference of two coefficient vectors; 0 when they agree to 1e-12 in absolute terms (the coefficients are
+    dimensionless: when the exact solution is 0 - integer data with a vanishing lag product - both sides return rounding
+    noise of size 1e-16 and a purely relative measure is meaningless)"""
+    r = rel(u, v)
+    if r > 0 and np.isfinite(r) and float(np.max(np.abs(np.asarray(u) - np.asarray(v)))) <= 1e-12:
+        return 0.0
+    return r
+
+
 def oracle_fit(p):
     sp = _sp()
+    xin = _present(p)
     x = np.asarray(p["x"]).astype(complex)
     N = len(x)
     order = p["order"]
     out = []
     en = float(np.sum(np.abs(x) ** 2))
+    cls = "complex" if np.iscomplexobj(p["x"]) else "real"
+    where = "(N=%d order=%d %s, input %s)" % (N, order, cls, _inp_tag(p)[4:])
     # covariance
-    a, e = sp.arcovar(np.asarray(p["x"]), order)
+    a, e = sp.arcovar(xin, order)
     a = c(a)
     if len(a) != order:
         return ["arcovar returned %d coefficients for order %d" % (len(a), order)]
@@ -107,16 +203,44 @@ def oracle_fit(p):
         a2[0] += d
         if np.sum(np.abs(_resid(x, a2, order)[0]) ** 2) < emin - 1e-9 * en:
             out.append("arcovar coefficients do not minimise the forward energy")
-    if N - order > order:
-        am = sp.arcovar_marple(np.asarray(p["x"]), order)
-        if rel(c(am[0])[:order], a) > 1e-5:
+    # the new clauses (boundary N = 2p, other outputs of the Marple routines, ValueError) are stated on the domain of the
+    # property: cond(XcH Xc) <= 1e8, evaluated on the numpy data matrix
+    cf = _cond(x, order)
+    dom = cf <= 1e8
+    exact_fit = N == 2 * order       # square regressor matrix: the forward minimum is 0
+    if exact_fit and dom and abs(e) > 1e-9 * en:
+        out.append("arcovar error %r is not 0 at N = 2p (energy %r) %s" % (e, en, where))
+    if N - order > order or dom:
+        am = sp.arcovar_marple(xin, order)
+        if _coef_rel(c(am[0])[:order], a) > 1e-5:
             out.append("arcovar_marple coefficients differ from the least-squares solution: %.2e (N=%d order=%d)" % (
                 rel(c(am[0])[:order], a), N, order))
         if abs(am[1] * (N - order) - emin) > 1e-5 * en:
             out.append("arcovar_marple error*(N-p) = %r differs from the minimum %r" % (am[1] * (N - order), emin))
+        if dom:
+            # rounding of the recursion grows with the conditioning: 1e-9 up to cond 1e4, at most the general 1e-5 at cond 1e8
+            if exact_fit and not abs(am[1] * (N - order)) <= max(1e-9, 1e-13 * cf) * en:
+                out.append("arcovar_marple error*(N-p) = %r is not 0 at N = 2p (energy %r) %s" % (am[1] * (N - order), en, where))
+            if len(am) != 5:
+                out.append("arcovar_marple returns %d values instead of (af, pf, ab, pb, pbv)" % len(am))
+            else:
+                af, ab = c(am[0]), c(am[2])
+                if np.any(af[order:] != 0) or np.any(ab[order:] != 0):
+                    out.append("arcovar_marple: entries beyond the order are not 0 in af / ab %s" % where)
+                # the backward predictor has its own regressor matrix: same conditioning predicate on that one
+                if _cond(x, order, backward=True) <= 1e8:
+                    b, ebmin = _ls_backward(x, order)
+                    if _coef_rel(ab[:order], b) > 1e-5:
+                        out.append("arcovar_marple backward coefficients differ from the backward least-squares solution: %.2e %s" % (
+                            rel(ab[:order], b), where))
+                    if not abs(am[3] * (N - order) - ebmin) <= 1e-5 * en:
+                        out.append("arcovar_marple backward error*(N-p) = %r differs from the backward minimum %r %s" % (
+                            am[3] * (N - order), ebmin, where))
     # modified covariance
-    a, e = sp.modcovar(np.asarray(p["x"]), order)
+    a, e = sp.modcovar(xin, order)
     a = c(a)
+    if len(a) != order:
+        return out + ["modcovar returned %d coefficients for order %d" % (len(a), order)]
     ef, eb = _resid(x, a, order)
     emin = float(np.sum(np.abs(ef) ** 2) + np.sum(np.abs(eb) ** 2))
     g = max(abs(sum(ef[t - order] * np.conj(x[t - j - 1]) for t in range(order, N))
@@ -126,16 +250,37 @@ def oracle_fit(p):
             g, N, order, "complex" if np.iscomplexobj(p["x"]) else "real"))
     if abs(e - emin) > 1e-7 * en:
         out.append("modcovar error %r is not the minimum forward+backward energy %r" % (e, emin))
-    if N - order > order:
+    if N - order > order or dom:
         try:
-            am = sp.modcovar_marple(np.asarray(p["x"]), order)
-            if rel(c(am[0])[:order], a) > 1e-5:
+            am = sp.modcovar_marple(xin, order)
+        except ValueError as ex:
+            # the recursion's own validity checks (ill-conditioned stage): a violation inside the domain
+            am = None
+            if dom:
+                out.append("modcovar_marple raises ValueError (%s) on a well-conditioned record: cond %.1e %s" % (
+                    str(ex)[:60], _cond(x, order), where))
+        if am is not None:
+            if _coef_rel(c(am[0])[:order], a) > 1e-5:
                 out.append("modcovar_marple coefficients differ from the least-squares solution: %.2e (N=%d order=%d)" % (
                     rel(c(am[0])[:order], a), N, order))
             if abs(am[1] * 2 * (N - order) - emin) > 1e-5 * en:
                 out.append("modcovar_marple error*2(N-p) = %r differs from the minimum %r" % (am[1] * 2 * (N - order), emin))
-        except ValueError:
-            pass  # the recursion's own validity checks (ill-conditioned stage): outside the domain
+            if dom:
+                if len(am) != 3:
+                    out.append("modcovar_marple returns %d values instead of (A, P, Pv)" % len(am))
+                else:
+                    if np.any(c(am[0])[order:] != 0):
+                        out.append("modcovar_marple: entries of A beyond the order are not 0 %s" % where)
+                    Pv = np.asarray(am[2], dtype=float).ravel()
+                    if len(Pv) != order:
+                        out.append("modcovar_marple returns %d stage variances for order %d" % (len(Pv), order))
+                    else:
+                        for k in range(order):
+                            mk = _ls_modified_min(x, k + 1)
+                            if not abs(Pv[k] * 2 * (N - k - 1) - mk) <= 1e-5 * en:
+                                out.append("modcovar_marple Pv[%d]*2(N-%d) = %r differs from the order-%d minimum %r %s" % (
+                                    k, k + 1, Pv[k] * 2 * (N - k - 1), k + 1, mk, where))
+                                break
     return out
 
 
@@ -173,11 +318,33 @@ def oracle_recover(p):
     for name in ("arcovar", "modcovar"):
         a, e = _fn(name)(x, order)
         rts = np.roots(np.concatenate(([1], c(a))))
-        fr = np.sort(np.angle(rts) / (2 * np.pi))
-        if np.max(np.abs(fr - f)) > 1e-7 or np.max(np.abs(np.abs(rts) - 1)) > 1e-7:
-            out.append("%s does not recover the %d frequencies of a noiseless sum of exponentials: %s vs %s" % (name, order, fr, f))
+        if np.max(np.abs(f)) < 0.5:
+            fr = np.sort(np.angle(rts) / (2 * np.pi))
+            bad = len(fr) != len(f) or np.max(np.abs(fr - f)) > 1e-7
+        else:
+            # a frequency exactly at 0.5 = -0.5: compare on the circle (every expected frequency has a root within 1e-7 and
+            # every root an expected frequency; the expected frequencies are distinct)
+            fr = np.angle(rts) / (2 * np.pi)
+            d = np.abs(np.angle(np.exp(2j * np.pi * (fr[:, None] - f[None, :])))) / (2 * np.pi) if len(fr) else np.ones((1, len(f)))
+            bad = len(fr) != len(f) or np.max(np.min(d, axis=0)) > 1e-7 or np.max(np.min(d, axis=1)) > 1e-7
+        if bad or np.max(np.abs(np.abs(rts) - 1)) > 1e-7:
+            out.append("%s does not recover the %d frequencies of a noiseless sum of exponentials: %s vs %s (N=%d, %s)" % (
+                name, order, fr, f, len(x), x.dtype))
         if abs(e) > 1e-8 * float(np.sum(np.abs(x) ** 2)):
             out.append("%s error %r is not 0 on a noiseless sum of exponentials" % (name, e))
+    return out
+
+
+def oracle_sanity(p):
+    """harness-level: the conditioning filter of the generator (numpy, independent of the library) must keep most of the
+    candidates of every family; an empty family would otherwise pass silently"""
+    out = []
+    for fam, (ok, total) in sorted(p["counts"].items()):
+        if total >= 8 and ok < 0.6 * total:
+            out.append("harness: only %d of %d generated candidates of family '%s' satisfy the conditioning predicate: "
+                       "the case families are (nearly) empty" % (ok, total, fam))
+        if total == 0:
+            out.append("harness: family '%s' generated no candidate" % fam)
     return out
 
 
@@ -208,11 +375,20 @@ def _key(p):
 
 
 def _tags(p):
-    return ["complex" if np.iscomplexobj(p["x"]) else "real", "data:" + p.get("dkind", "exp"), "fn:" + p.get("fn", "-")]
+    t = ["complex" if np.iscomplexobj(p["x"]) else "real", "data:" + p.get("dkind", "exp"), "fn:" + p.get("fn", "-")]
+    if "inp" in p:
+        t.append(_inp_tag(p))
+    if len(p["x"]) == 2 * p["order"]:
+        t.append("N=2p")
+    if p["order"] == 0:
+        t.append("order0")
+    return t
 
 
 # kinds whose parameters describe the content of x: no derived degenerate records
-NO_DEGEN = {"overfit", "recover"}
+# (lawsdyn: records of wide dynamic range pass the conditioning predicate as generated; a derived record - real part only,
+# ends zeroed, a dominant constant added - is a different record that generally does not)
+NO_DEGEN = {"overfit", "recover", "lawsdyn"}
 
 KINDS = {
     "fit": {"impl": impl_fit, "model": model_fit, "rtol": 1e-6, "atol": 1e-9, "key": _key, "tags": _tags,
@@ -224,25 +400,46 @@ KINDS = {
               "tags": lambda p: _tags(p) + ["dtype:%s" % np.asarray(p["x"]).dtype], "nontrivial": lambda p: p["order"] >= 2},
     "fitr": {"impl": impl_fit, "model": model_fit_rec, "rtol": 1e-5, "atol": 1e-9, "key": _key, "tags": _tags,
              "nontrivial": lambda p: p["order"] >= 2},
+    # boundary N = 2p (square regressor matrix): same comparisons, the error relative to the signal energy
+    "fit2p": {"impl": impl_fit, "model": model_fit, "post": _post_energy, "rtol": 1e-6, "atol": 1e-9, "key": _key, "tags": _tags,
+              "nontrivial": lambda p: p["order"] >= 2},
+    "fitm2p": {"impl": impl_fit, "model": model_fit, "post": _post_energy, "rtol": 1e-5, "atol": 1e-9, "key": _key, "tags": _tags,
+               "nontrivial": lambda p: p["order"] >= 2},
+    "fitr2p": {"impl": impl_fit, "model": model_fit_rec, "post": _post_energy, "rtol": 1e-5, "atol": 1e-9, "key": _key, "tags": _tags,
+               "nontrivial": lambda p: p["order"] >= 2},
     "recexact": {"oracle": oracle_rec_exact, "key": lambda p: "recexact|%d|%d" % (len(p["batch"]), hash(np.asarray(p["batch"][0][0]).tobytes()) & 0xFFFFF),
                  "tags": lambda p: ["recexact:%d" % len(p["batch"])]},
     "laws": {"oracle": oracle_fit, "key": _key, "tags": _tags, "nontrivial": lambda p: p["order"] >= 2},
+    "lawsdyn": {"oracle": oracle_fit, "key": _key, "tags": _tags, "nontrivial": lambda p: p["order"] >= 2},
     "overfit": {"oracle": oracle_overfit, "key": _key, "tags": lambda p: ["overfit:K=%d,p=%d" % (p["K"], p["order"])]},
-    "recover": {"oracle": oracle_recover, "key": _key, "tags": lambda p: ["recover:%d" % p["order"]]},
+    "recover": {"oracle": oracle_recover, "key": _key,
+                "tags": lambda p: ["recover:%d" % p["order"], "recover:" + p.get("fam", "cexp")]},
+    "sanity": {"oracle": oracle_sanity, "key": lambda p: "sanity", "nontrivial": lambda p: False,
+               "tags": lambda p: ["sanity:%s=%d/%d" % (k, v[0], v[1]) for k, v in sorted(p["counts"].items())]},
 }
-
-
-def _cond_ok(x, order):
-    from spectrum import corrmtx
-    X = np.asarray(corrmtx(np.asarray(x), order, "covariance"))[:, 1:]
-    return np.linalg.cond(X.conj().T @ X) <= 1e8
 
 
 KINDS["single"] = single.kind("C14")
 
+
+def _cexp(f, N):
+    t = np.arange(N)
+    return sum((1 + j) * np.exp(2j * np.pi * fj * t + 1j * j) for j, fj in enumerate(f))
+
+
 def gen(rng, nrng, tier):
     yield from single.gen("C14", nrng, tier)
-    n = 120 if tier == "quick" else 2000
+    quick = tier == "quick"
+    counts = {}
+
+    def keep(fam, x, order):
+        ok = _cond_ok(x, order)
+        c0 = counts.setdefault(fam, [0, 0])
+        c0[0] += int(ok)
+        c0[1] += 1
+        return ok
+
+    n = 120 if quick else 2000
     kinds = ["noise", "tone", "int", "trend"]
     fns = ["arcovar", "modcovar", "arcovarm", "modcovarm"]
     batch = []
@@ -254,28 +451,77 @@ def gen(rng, nrng, tier):
         order = int(nrng.integers(1, min(N // 2, 6) + 1))
         if N - order <= order:
             order = max(1, order - 1)
-        if not _cond_ok(x, order):
+        if not keep("exact", x, order):
             continue
         fn = fns[i % 4]
         yield ("fitm" if fn.endswith("m") else "fit", {"x": x, "order": order, "fn": fn, "dkind": dk})
         if fn.endswith("m"):
             yield ("fitr", {"x": x, "order": order, "fn": fn, "dkind": dk})
             batch.append((x, order))
-        if (i // 4) % 3 == 0 and np.linalg.cond(np.asarray(__import__("spectrum").corrmtx(x, order, "covariance"))[:, 1:]) < 50:
-            yield ("fit32", {"x": x.astype(np.complex64 if cplx else np.float32), "order": order, "fn": fn, "dkind": dk})
+        if (i // 4) % 3 == 0:
+            ok32 = np.linalg.cond(_dmat(x, order)) < 50
+            c0 = counts.setdefault("fit32", [0, 0])
+            c0[0] += int(ok32)
+            c0[1] += 1
+            if ok32:
+                yield ("fit32", {"x": x.astype(np.complex64 if cplx else np.float32), "order": order, "fn": fn, "dkind": dk})
+    # exact mode at the boundary N - p = p: all four functions, both models of the Marple routines
+    b2 = [(6, 3), (8, 4), (10, 5), (12, 6)]
+    for i in range(32 if quick else 256):
+        N, order = b2[(i // 4) % 4]
+        cplx = bool((i // 2) % 2)
+        x, dk = gen_data(nrng, N, cplx, kind=kinds[(i // 16) % 4], exact=True)
+        x = np.asarray(x, dtype=complex if cplx else float)
+        if not keep("exact-N=2p", x, order):
+            continue
+        for fn in (fns[:2] if i % 2 == 0 else fns[2:]):
+            q = {"x": x, "order": order, "fn": fn, "dkind": dk}
+            yield ("fitm2p" if fn.endswith("m") else "fit2p", q)
+            if fn.endswith("m"):
+                yield ("fitr2p", dict(q))
+        if i % 2:
+            batch.append((x, order))
+    # order 0 of the Marple routines (outside the quantifier, which starts at order 1: trivial cases)
+    for i in range(4 if quick else 16):
+        cplx = bool(i % 2)
+        x, dk = gen_data(nrng, int(nrng.integers(6, 25)), cplx, kind=kinds[(i // 2) % 4], exact=True)
+        x = np.asarray(x, dtype=complex if cplx else float)
+        for fn in fns[2:]:
+            yield ("fitr", {"x": x, "order": 0, "fn": fn, "dkind": dk})
+            yield ("fitm", {"x": x, "order": 0, "fn": fn, "dkind": dk})
     for j in range(0, len(batch), 40):
         yield ("recexact", {"batch": batch[j: j + 40]})
-    n2 = 60 if tier == "quick" else 900
+    # property statement on the real code: every data class of gen_data (except the constant record, which is rank
+    # deficient), handed over as array / list / integer dtypes
+    lkinds = ["noise", "tone", "int", "trend", "dyn", "intdtype", "czero", "list"]
+    n2 = 120 if quick else 1800
     for i in range(n2):
         cplx = bool(nrng.integers(0, 2))
         N = int(nrng.integers(6, 129))
-        x, dk = gen_data(nrng, N, cplx, kind=kinds[i % 4])
-        x = np.asarray(x, dtype=complex if cplx else float)
+        x, dk = gen_data(nrng, N, cplx, kind=lkinds[i % 8])
+        inp = "array"
+        if dk == "list":
+            inp = "list"
+        elif dk in ("int", "intdtype") and not np.iscomplexobj(x):
+            inp = ["int64", "int32", "pyint", "array"][(i // 8) % 4] if dk == "intdtype" else ["array", "pyint"][(i // 8) % 2]
+        x = np.asarray(x, dtype=complex if np.iscomplexobj(x) else float)
         order = int(nrng.integers(1, min(N // 2, 20) + 1))
-        if not _cond_ok(x, order):
+        if not keep("laws", x, order):
             continue
-        yield ("laws", {"x": x, "order": order, "dkind": dk})
-    for i in range(12 if tier == "quick" else 120):
+        yield ("lawsdyn" if dk == "dyn" else "laws", {"x": x, "order": order, "dkind": dk, "inp": inp})
+    # the boundary N - p = p, where the covariance minimum is 0 and the Marple recursions end on an exact fit
+    l2 = [(6, 3), (8, 4), (12, 6), (24, 12), (40, 20), (10, 5), (16, 8), (32, 16)]
+    for i in range(64 if quick else 512):
+        N, order = l2[i % 8]
+        cplx = bool(nrng.integers(0, 2))
+        dkind = ["noise", "tone", "int", "trend", "noise", "intdtype", "list", "czero"][(i + i // 8) % 8]
+        x, dk = gen_data(nrng, N, cplx, kind=dkind)
+        inp = "list" if dk == "list" else (["int64", "int32", "pyint"][(i // 8) % 3] if dk == "intdtype" and not np.iscomplexobj(x) else "array")
+        x = np.asarray(x, dtype=complex if np.iscomplexobj(x) else float)
+        if not keep("laws-N=2p", x, order):
+            continue
+        yield ("laws", {"x": x, "order": order, "dkind": dk, "inp": inp})
+    for i in range(12 if quick else 120):
         p = 1 + i % 4
         N = int(nrng.integers(2 * p + 2, 41))
         f = np.sort(nrng.choice(np.arange(-19, 20), size=p, replace=False) / 40.0)
@@ -292,3 +538,30 @@ def gen(rng, nrng, tier):
         if i % 3 == 0:
             tt = np.arange(24)
             yield ("overfit", {"x": np.cos(2 * np.pi * 0.2 * tt + 0.3), "order": 4, "K": 2})
+    # exact recovery at the boundaries N = 2p, 2p+1 (lengths >= 6), orders up to 8; the same conditioning predicate as
+    # everywhere (close frequencies on a short record make the data matrix ill-conditioned)
+    for i in range(24 if quick else 192):
+        p = 1 + i % 8
+        N = max(6, [2 * p, 2 * p + 1, 2 * p + 2 + int(nrng.integers(0, 30))][(i // 8) % 3])
+        f = np.sort(nrng.choice(np.arange(-19, 20), size=p, replace=False) / 40.0)
+        x = _cexp(f, N)
+        if not keep("recover-cexp", x, p):
+            continue
+        yield ("recover", {"x": x, "order": p, "freqs": f, "fam": "cexp-N=2p+%d" % min(N - 2 * p, 2)})
+    # K real sinusoids: 2K complex exponentials at +-f_j, fitted at the exact order 2K
+    for i in range(12 if quick else 120):
+        K = 1 + i % 4
+        N = max(6, [4 * K, 4 * K + 1, 64][(i // 4) % 3])
+        f0 = np.sort(nrng.choice(np.arange(1, 20), size=K, replace=False) / 40.0)
+        t = np.arange(N)
+        x = sum((1 + j) * np.cos(2 * np.pi * fj * t + 0.3 + j) for j, fj in enumerate(f0))
+        if not keep("recover-real", x, 2 * K):
+            continue
+        yield ("recover", {"x": x, "order": 2 * K, "freqs": np.concatenate((-f0, f0)), "fam": "real-sinusoids"})
+    # tones exactly at frequency 0 and 0.5, real and complex dtype
+    for i in range(3 if quick else 12):
+        N = [6, 7, 12, 33][i % 4] + 4 * (i // 4)
+        x = 1.0 + 2 * (-1.0) ** np.arange(N)
+        for xx in (x, x.astype(complex)):
+            yield ("recover", {"x": xx, "order": 2, "freqs": np.array([-0.5, 0.0]), "fam": "dc+nyquist"})
+    yield ("sanity", {"counts": {k: tuple(v) for k, v in counts.items()}})
